@@ -1,5 +1,6 @@
 import Grexv.Lemmas.Trie
 import Grexv.Lemmas.ExprLang
+import Grexv.Lemmas.Contracts
 import Grexv.Props.C13
 
 /-!
@@ -56,6 +57,24 @@ theorem union_language (cfg : Config) (a b : Option Expr)
     (ha : ∀ e, a = some e → e.PlainTop) (hb : ∀ e, b = some e → e.PlainTop) (w : Word) :
     olang (Expr.union cfg a b) w ↔ olang a w ∨ olang b w :=
   Expr.union_lang cfg a b ha hb w
+
+/-- **S7 (state elimination)** for every automaton with plain labels on which the three executable
+contracts hold (closed depth-first order, no self loop met by the loop, at least one state — the
+driver evaluates them on every input of the S stream), the expression left in `b[0]` by the
+elimination loop of `Expression::from` denotes exactly the words accepted from the initial state -/
+theorem elimination_language (cfg : Config) (d : Dfa) (h : elimContractsB cfg d = true) (w : Word) :
+    olang (((List.range d.nodes).reverse.foldl (elimStep cfg) (elimInit cfg d d.dfs)).b.get 0) w ↔ d.LangFrom d.init w :=
+  elimination_lang_checked cfg d h w
+
+/-- and `Expression::from` returns that expression, or the empty literal when `b[0]` is `None` -/
+theorem ofDfa_is_b0 (cfg : Config) (d : Dfa) :
+    Expr.ofDfa cfg d =
+      (match ((List.range d.nodes).reverse.foldl (elimStep cfg) (elimInit cfg d d.dfs)).b.get 0 with
+       | some e => e
+       | none => Expr.lit []) := ofDfa_eq cfg d
+
+/-- non-vacuity of the contracts: they hold on a concrete minimised automaton -/
+example : elimContractsB {} (Dfa.trie [[Grapheme.ofStr [97]], [Grapheme.ofStr [97], Grapheme.ofStr [98]]]) = true := by decide
 
 /-- non-vacuity: `ab | ac` is factored to `a[bc]`, and both words are still in the language -/
 example :
